@@ -1,12 +1,4 @@
 // ---- stubs shared by the tour slices (A-stub) ---------------------------------------------------------
-//@item solution/src/path.rs Path::new_trusted : trusted
-//@retname r
-//@sig
-    requires nw.wf(), all_in_net(&nw, node_sequence@),
-    ensures
-        all_depots(&nw, node_sequence@) ==> r is None,
-        !all_depots(&nw, node_sequence@) ==> r is Some && r.unwrap().node_sequence@ == node_sequence@ && r.unwrap().network == nw,
-//@end
 
 //@item solution/src/tour.rs Tour::position_of : trusted
 //@retname r
